@@ -262,7 +262,12 @@ fn aggregate(runs: &[Value]) -> Agg {
         }
         if let Some(c) = r["counters"].as_object() {
             for (k, v) in c {
-                *a.counters.entry(k.clone()).or_insert(0) += v.as_u64().unwrap_or(0);
+                let e = a.counters.entry(k.clone()).or_insert(0);
+                if k.starts_with("max_") {
+                    *e = (*e).max(v.as_u64().unwrap_or(0));
+                } else {
+                    *e += v.as_u64().unwrap_or(0);
+                }
             }
         }
         if let Some(s) = r.get("sample")
@@ -438,6 +443,13 @@ pub fn check(id: &str, tier: Tier) -> i32 {
         return 2;
     }
 
+    if !new.is_empty() {
+        let mut hist: BTreeMap<String, u64> = BTreeMap::new();
+        for c in &new {
+            *hist.entry(c.2.clone()).or_insert(0) += 1;
+        }
+        println!("violation classes: {hist:?}");
+    }
     if let Some(first) = new.first() {
         let (run, _trial, class, detail, plan) = (first.0, first.1, &first.2, &first.3, &first.4);
         println!("violation in run {run}: {class}: {detail}");
